@@ -103,7 +103,8 @@ class MeshLine1(MeshSimplex, Mesh):
                       np.arange(self.t.shape[1])]
 
         def finder(x):
-            xin = x.copy()  # bring endpoint inside for np.digitize
+            # bring endpoint inside for np.digitize
+            xin = np.array(x, dtype=np.float64)
             xin[x == self.p[0, ix[-1]]] = self.p[0, ix[-2:]].mean()
             elems = np.nonzero(ix[np.digitize(xin, self.p[0, ix])][:, None]
                                == maxt)[1].astype(np.int32)
